@@ -235,9 +235,9 @@ func keepsTraces(o *ach.ValidateOpts) bool {
 	return o != nil && (o.BypassOriginValidation || o.CustomTraceNumbers)
 }
 
-// commonBatchFlags: the flags every batch of the file carries (in most domain files that is the file's own set;
+// CommonBatchFlags: the flags every batch of the file carries (in most domain files that is the file's own set;
 // when the options sit on the batches only, or the file carries an unrelated set, it is the batches' set)
-func commonBatchFlags(in *ach.File) []string {
+func CommonBatchFlags(in *ach.File) []string {
 	var sets [][]string
 	for _, b := range in.Batches {
 		sets = append(sets, Flags(BatchOpts(b)))
@@ -269,7 +269,7 @@ func commonBatchFlags(in *ach.File) []string {
 	return out
 }
 
-func missingFlags(have *ach.ValidateOpts, want []string) []string {
+func MissingFlags(have *ach.ValidateOpts, want []string) []string {
 	h := map[string]bool{}
 	for _, f := range Flags(have) {
 		h[f] = true
@@ -294,13 +294,13 @@ func Derived(op, what string, in, out *ach.File, add func(key, what string)) {
 		add(op+":opts:file-options-not-carried", fmt.Sprintf("%s carries %v, the input carries %v", what, Flags(out.GetValidation()), Flags(in.GetValidation())))
 	}
 	for _, b := range out.Batches {
-		if m := missingFlags(BatchOpts(b), commonBatchFlags(in)); len(m) > 0 {
+		if m := MissingFlags(BatchOpts(b), CommonBatchFlags(in)); len(m) > 0 {
 			add(op+":opts:batch-options-not-carried", fmt.Sprintf("a batch of %s lacks %v of the batch its entries come from", what, m))
 			break
 		}
 	}
 	for i := range out.IATBatches {
-		if m := missingFlags(IATOpts(&out.IATBatches[i]), commonBatchFlags(in)); len(m) > 0 {
+		if m := MissingFlags(IATOpts(&out.IATBatches[i]), CommonBatchFlags(in)); len(m) > 0 {
 			add(op+":opts:batch-options-not-carried", fmt.Sprintf("an IAT batch of %s lacks %v of the batch its entries come from", what, m))
 			break
 		}
